@@ -176,6 +176,8 @@ def make_scenario(rnd, counts, nues_choices=None, fault=None, opts=None):
             ue["setupMsgNas"] = (d + u) % 2 == 1       # another NAS message in the message-level NAS-PDU IE of the setup request
             if opts.get("slow") and u == opts["slow"] - 1:
                 ue["setupDelay"] = 17                  # the SMF answers this UE's session request after 17 s
+            if opts.get("tail_ie") and u == opts["tail_ie"] - 1:
+                ue["setupTailIe"] = True               # UE-AMBR (id 110) behind the list of this UE's setup request
             if opts.get("fill") and u == opts["fill"] - 1:
                 ue["setupFill"] = 2048                 # this UE's setup request fills the emulator's receive buffer exactly
             if u >= 1 and d % 2 == 0:
